@@ -1,5 +1,75 @@
 """bounded clauses of C08 on fitted objects (see rtc/battery.py)"""
 from rtc import battery
 ALL = ['Discretizer', 'QuantitativeDiscretizer', 'QualitativeDiscretizer', 'BinaryCarver', 'ContinuousCarver', 'MulticlassCarver', 'OrdinalDiscretizer', 'CategoricalDiscretizer', 'ContinuousDiscretizer']
+import random, traceback
+import numpy as np
+import pandas as pd
+from rtc import zoo
+from rtc.battery import wf_order, outcome
+
+
+def special(arg):
+    """inputs the general battery does not build: (a) a PRE-GROUPED ordinal ranking in which the user already attached the missing-value marker to a modality,
+    handed to OrdinalDiscretizer / QualitativeDiscretizer / Discretizer; (b) ChainedDiscretizer with features whose most frequent modality is rarer than min_freq
+    (dropped) next to ordinary ones"""
+    which, seed = arg; rng = random.Random(seed); recs = []
+    def rec(clause, ok, msg, wit): recs.append(('C08:' + clause, bool(ok), wit if not ok else dict(which=which, seed=seed), msg))
+    n = rng.choice([40, 60, 80])
+    if which == 'pregrouped':
+        rank = ['low', 'mid', 'high', 'top'][:rng.choice([3, 4])]
+        col = [rank[min(len(rank) - 1, int(rng.random() * len(rank)))] if rng.random() > 0.15 else np.nan for _ in range(n)]
+        X = pd.DataFrame({'o': pd.Series(col, dtype=object), 'q': [round(rng.random() * 5, 1) for _ in range(n)]}); y = pd.Series([int(rng.random() < 0.4) for _ in range(n)])
+        host = rng.choice(rank); marker = rng.choice(['__NAN__', 'MISSING'])
+        content = {r_: ([marker, r_] if r_ == host else [r_]) for r_ in rank}
+        wit = dict(which=which, ranking=content, column=[None if v != v else v for v in col], str_nan=marker)
+        from AutoCarver.discretizers import GroupedList, Discretizer, QualitativeDiscretizer
+        from AutoCarver.discretizers.utils.qualitative_discretizers import OrdinalDiscretizer
+        for name, mk in (('OrdinalDiscretizer', lambda: OrdinalDiscretizer(ordinal_features=['o'], values_orders={'o': GroupedList(content)}, min_freq=0.1, str_nan=marker, copy=True)),
+                         ('QualitativeDiscretizer', lambda: QualitativeDiscretizer(qualitative_features=[], ordinal_features=['o'], values_orders={'o': GroupedList(content)}, min_freq=0.1, str_nan=marker, copy=True)),
+                         ('Discretizer', lambda: Discretizer(quantitative_features=['q'], qualitative_features=[], ordinal_features=['o'], values_orders={'o': GroupedList(content)}, min_freq=0.1, str_nan=marker, copy=True))):
+            w = dict(wit, kind=name)
+            try: o = mk(); o.fit(X, y)
+            except AssertionError: continue
+            except Exception as e:
+                rec('fit#raises.only_AssertionError', False, '%s.fit raised %s: %s' % (name, type(e).__name__, str(e)[:200]), w); continue
+            rec('fit#raises.only_AssertionError', True, '', w)
+            if 'o' in o.features:
+                errs = wf_order(o.values_orders['o'])
+                rec('fit#post.values_orders_well_formed', not errs, '%s: %s (order %r)' % (name, '; '.join(errs), dict(o.values_orders['o'].content)), w)
+                t = outcome(lambda: o.transform(X))
+                rec('transform#post.training_rows_accepted', t[0] == 'ok', '%s: transform of the training data: %s' % (name, t[0]), w)
+    else:
+        from AutoCarver.discretizers.utils.qualitative_discretizers import ChainedDiscretizer
+        leaves = ['v%d%d' % (g, j) for g in range(3) for j in range(4)]; levels = [{'G%d' % g: ['v%d%d' % (g, j) for j in range(4)] + ['G%d' % g] for g in range(3)}]
+        cols = {}
+        for k in range(rng.choice([2, 3])):
+            if k == 1 or rng.random() < 0.3: cols['h%d' % k] = [leaves[(j + k) % 12] for j in range(n)]                                                 # 12 equally rare values: dropped at min_freq 0.1
+            else: cols['h%d' % k] = [leaves[0] if rng.random() < 0.4 else rng.choice(leaves) for _ in range(n)]
+        if rng.random() < 0.5: cols['h0'] = [np.nan if rng.random() < 0.1 else v for v in cols['h0']]
+        X = pd.DataFrame({c: pd.Series(v, dtype=object) for c, v in cols.items()}); y = pd.Series([j % 2 for j in range(n)])
+        wit = dict(which=which, columns={c: [None if v != v else v for v in vs] for c, vs in cols.items()}, levels=levels)
+        try:
+            o = ChainedDiscretizer(qualitative_features=list(cols), chained_orders=levels, min_freq=0.1, unknown_handling=rng.choice(['raise', 'drop']), copy=True); o.fit(X, y)
+        except AssertionError: return recs
+        except Exception as e:
+            rec('fit#raises.only_AssertionError', False, 'ChainedDiscretizer.fit raised %s: %s' % (type(e).__name__, str(e)[:200]), wit); return recs
+        rec('fit#raises.only_AssertionError', True, '', wit)
+        for name in ('values_orders', 'input_dtypes', 'labels_per_values', 'features_dropna'):
+            rec('fit#post.attribute_keys_equal_kept_features', set(getattr(o, name)) == set(o.features), 'ChainedDiscretizer: %s has keys %r, features %r' % (name, sorted(getattr(o, name)), sorted(o.features)), dict(wit, attribute=name))
+        for f in o.features:
+            errs = wf_order(o.values_orders[f]); rec('fit#post.values_orders_well_formed', not errs, 'ChainedDiscretizer %s: %s' % (f, '; '.join(errs)), dict(wit, feature=f))
+        t = outcome(lambda: o.transform(X))
+        if t[0] == 'ok':
+            for f in cols:
+                if f not in o.features: rec('transform#post.dropped_features_untouched', [repr(v) for v in t[1][f].tolist()] == [repr(v) for v in X[f].tolist()], 'dropped chained feature %s modified by transform' % f, dict(wit, feature=f))
+        else: rec('transform#post.training_rows_accepted', False, 'ChainedDiscretizer: transform of the training data: %s' % t[0], wit)
+    return recs
+
+
 def run(ctx):
     battery.run_battery(ctx, {'C08'}, kinds=ALL)
+    n = 20 if ctx.tier == 'quick' else 200
+    ctx.bound('special inputs', '%d pre-grouped ordinal rankings holding the missing-value marker (3 classes) and %d ChainedDiscretizer frames with dropped features' % (n, n))
+    for recs in zoo.pmap(special, [(w, ctx.seed * 53 + i) for i in range(n) for w in ('pregrouped', 'chained')]):
+        for clause, ok, wit, msg in recs:
+            if clause.startswith('C08:'): ctx.check(clause[4:], clause[4:].split('#')[0], ok, wit, msg)
